@@ -55,6 +55,14 @@ def run(tier, seed):
             execs.append({"x": "w%d" % i, "np": np_, "steps": tr.steps(h, filecheck.NAMES)})
             i += 1
     execs += clobber_scenarios(rng)
+    # the file must also be "up to date" after a redefinition that moved or kept data sections: the deterministic growth
+    # scenarios of C06 (header growth absorbed by free space or not, record size change), decoded and compared here too
+    import c06
+    g = c06.grow_scenarios(random.Random(seed + 7), "thorough")
+    g = [e for e in g if e["np"] <= 2]
+    if tier == "quick":
+        g = [e for k, e in enumerate(g) if k % 4 == seed % 4 or (e["gap"] and e["delta"] == "att_mid_recvar")]
+    execs += g
     return filecheck.run(PID, tier, seed, execs, mc,
                          "random walks of File_MC replayed under formats CDF-1/2/5, alignment hints (header/variable/record alignment, "
                          "incl. values that are not multiples of 4) or ncmpi__enddef arguments (alignments, minfree), UTF-8 names, on "
